@@ -59,6 +59,7 @@ def e2_slices():
         (r"fn inc_position\s*\(", "LRItem::inc_position"), (r"fn is_kernel\s*\(", "LRItem::is_kernel"), (r"fn is_reducing\s*\(\s*&self", "LRItem::is_reducing"))) + "\n}\n", TABLE)
     out["kernel_items_fn"] = ("impl<'g> LRState<'g> {\n" + slicer.fn_whole(t, r"fn kernel_items\s*\(", "LRState::kernel_items") + "\n}\n", TABLE)
     out["lrstate_eq"] = (slicer.fn_whole(t, r"impl PartialEq for LRState<'_>", "impl PartialEq for LRState") + "\n", TABLE)
+    out["group_per_next_symbol_fn"] = ("impl<'g> LRState<'g> {\n" + slicer.fn_whole(t, r"fn group_per_next_symbol\s*\(", "LRState::group_per_next_symbol") + "\n}\n", TABLE)
     out["merge_state_fn"] = ("impl<'g, 's> LRTable<'g, 's> {\n" + slicer.fn_whole(t, r"fn merge_state\s*\(", "LRTable::merge_state") + "\n}\n", TABLE)
     a = slicer.read(ACTIONS)
     fns = []
